@@ -3,7 +3,7 @@
    kind "patch":  [id, rb, ord (index into Aux.ords), pt (sorted PatchTree as items), upt (the same patch built with sorting disabled)]
    kind "config": [id, rb, t (config tree), out (order_config(t)), out2 (order_config(out))]
    kind "indep":  [id, full (command paths of patch(old,new)), part (command paths after dropping an unrelated top-level row)]     *)
-EXTENDS Orderer, TLC, Json, IOUtils
+EXTENDS Orderer, ShippedDeps, TLC, Json, IOUtils
 Recs == ndJsonDeserialize(IOEnv.TRACE_FILE)
 Aux == JsonDeserialize(IOEnv.AUX_FILE)
 VARIABLE i
@@ -30,7 +30,9 @@ VerdictIndep(r) ==
 \* kind "comments": [id, pt (sorted patch built without comments), ptc (the same patch built with add_comments, the comment text cut off each row)]:
 \* a comment is decoration of the displayed line, it takes no part in ordering
 VerdictComments(r) == IF r.ptc = r.pt THEN "ok" ELSE IF BagI(r.ptc) = BagI(r.pt) THEN "comments-change-the-order" ELSE "comments-change-the-patch"
-Verdict(r) == CASE r.kind = "patch" -> VerdictPatch(r) [] r.kind = "config" -> VerdictConfig(r) [] r.kind = "comments" -> VerdictComments(r) [] OTHER -> VerdictIndep(r)
+\* kind "deps": [id, fact (index into HuaweiDeps), cmds (top-level commands of a real Huawei patch holding both commands of the fact)]
+VerdictDeps(r) == DepVerdict(HuaweiDeps[r.fact], r.cmds)
+Verdict(r) == CASE r.kind = "deps" -> VerdictDeps(r) [] r.kind = "patch" -> VerdictPatch(r) [] r.kind = "config" -> VerdictConfig(r) [] r.kind = "comments" -> VerdictComments(r) [] OTHER -> VerdictIndep(r)
 Init == i = 0
 Next == /\ i < Len(Recs) /\ i' = i + 1
         /\ PrintT(<<"V", Recs[i + 1].id, Verdict(Recs[i + 1])>>)
